@@ -131,8 +131,315 @@ def layout_lengths(lens, mode, rng):
     return out
 
 
+
+# ------------------------------------------------------------ alignment classes
+# The scaled exhaustive universe (QLogFileAlg!ReadClasses / !ProbeClasses, emitted per layout by
+# QLogFileAlgMC) tells WHICH ways a buffer start or a probe-window edge can lie relative to the line
+# being extracted.  Every class is realised here with a real-size file by solving for the padding,
+# and afterwards found again in the positions the real code logged (read_classes_hit).
+
+def fill(nbytes, rng):
+    """Content lengths of filler lines occupying exactly nbytes bytes (each line + its newline)."""
+    if nbytes == 0:
+        return []
+    if nbytes < MINLEN + 1:
+        raise ValueError("cannot fill %d bytes with lines of >= %d bytes" % (nbytes, MINLEN))
+    out = []
+    while nbytes > MAXENTRY + MINLEN + 1:
+        c = MAXENTRY if rng.random() < 0.8 else rng.randint(MINLEN + 1, MAXENTRY)
+        out.append(c - 1)
+        nbytes -= c
+    if nbytes <= MAXENTRY:
+        out.append(nbytes - 1)
+    else:
+        out += [nbytes - 8000 - 1, 8000 - 1]
+    return out
+
+
+LEN_OF = {"max": MAXENTRY - 1, "sub": MAXENTRY - 2}
+
+
+def len_class(l):
+    return "max" if l == MAXENTRY - 1 else "sub" if l == MAXENTRY - 2 else "small"
+
+
+def off_class(d):
+    return "0" if d == 0 else "1" if d == 1 else "2+"
+
+
+def solve_read_class(c, rng):
+    """Content lengths (oldest line first) of a file whose backward read after SeekStart passes
+    through alignment class c.  None if the class needs a line shorter than MINLEN bytes."""
+    L = LEN_OF.get(c["len"], rng.choice([300, 8000, MINLEN]) if c["kind"] != "keep" or c["on"] == "zero" else rng.choice([6000, 8000]))
+    head = fill(rng.randint(1, 3) * 20000 + rng.randint(0, 5000), rng)
+    if c["on"] == "zero":
+        # the buffer starts at the file start: the line is the first of the file ("bof") or not
+        pre = [] if c["lf"] == "bof" else [rng.choice([MINLEN, 700, MAXENTRY - 1])]
+        pbytes = sum(x + 1 for x in pre)
+        p = pbytes + L                      # newline of the line X
+        if c["kind"] == "nil":
+            return pre + [L]                # X is the last line: read first, buffer absent
+        if c["kind"] == "keep":
+            return pre + [L] + fill(rng.randint(MINLEN + 1, 40000), rng)   # file below the buffer size
+        # re-initialisation that lands on the file start: old buffer start b0 = p - r0 > 0
+        r0 = {"0": 0, "1": 1, "mid": 5000, "top": MAXENTRY - 1}[c["trig"]]
+        if p - r0 <= 0:
+            if not pre:
+                return None
+            pre = [MAXENTRY - 1]
+            p = MAXENTRY + L
+        lw = rng.randint(max(MINLEN, MAXENTRY - r0 - 1), MAXENTRY - 1)   # the line after X: no line end
+        return pre + [L, lw] + fill(BUFSIZE - r0 - lw - 1, rng)          # in (b0, b0 + MaxEntry) but p
+    # buffer start bs > 0 = Size - 1 - BufSize (the first buffer of the backward read)
+    delta = {"lf": 0, "last": 1, "first": -1, "inside": -rng.randint(2, 40)}[c["on"]]   # a newline at bs + delta
+    if c["kind"] == "nil":
+        # X is the last line; head ends with the newline at bs + delta
+        return head + fill(BUFSIZE - L - 1 - delta, rng) + [L]
+    # kind keep: the newline before X at bs + d, X read without re-initialisation (d + L + 1 >= MaxEntry)
+    if c["lf"] == "0":
+        d = 0
+    elif c["lf"] == "1":
+        d = 1
+    elif c["rel"] == "=":
+        if c["len"] != "small":
+            return None
+        L = 8000
+        d = MAXENTRY - L - 1
+    else:
+        d = max(MAXENTRY - L - 1, 0) + rng.randint(2500, 4000)
+    if d + L + 1 < MAXENTRY or (c["rel"] == "=") != (d + L + 1 == MAXENTRY):
+        return None
+    mid = []
+    if d != delta:
+        ly = d - delta - 1                  # one line between the newline at bs+delta and the one at bs+d
+        if not MINLEN <= ly <= MAXENTRY - 1:
+            return None
+        mid = [ly]
+    elif delta < 0:
+        return None
+    return head + mid + [L] + fill(BUFSIZE - d - L - 1, rng)
+
+
+def geometry(lens):
+    ends, s = [], 0
+    for ln in lens:
+        s += ln + 1
+        ends.append(s - 1)
+    return ends
+
+
+def on_class(ends, endset, b):
+    if b == 0:
+        return "zero"
+    if b in endset:
+        return "lf"
+    if b + 1 in endset:
+        return "last"
+    if b - 1 in endset:
+        return "first"
+    return "inside"
+
+
+def read_class(ends, endset, p, bn, b0, bs):
+    """Class of the ReadNext that was made at position p (a line's newline) with buffer state
+    (bn, b0) and left bufferStart = bs -- the Python twin of QLogFileAlg!ReadClass, fed with the
+    positions the real code logged."""
+    i = bisect.bisect_left(ends, p)
+    a = ends[i - 1] + 1 if i > 0 else 0
+    kind = "nil" if bn else ("reinit" if p - b0 < MAXENTRY and b0 != 0 else "keep")
+    t0 = p - b0
+    return {"kind": kind,
+            "trig": "-" if kind != "reinit" else "0" if t0 == 0 else "1" if t0 == 1 else "top" if t0 == MAXENTRY - 1 else "mid",
+            "rel": "-" if kind != "keep" or bs == 0 else "=" if p - bs == MAXENTRY else ">",
+            "len": len_class(p - a),
+            "lf": ("bof" if a == 0 else "in") if bs == 0 else off_class(a - 1 - bs),
+            "on": on_class(ends, endset, bs)}
+
+
+def ckey(c):
+    return json.dumps(c, sort_keys=True)
+
+
+def read_classes_hit(case, rows):
+    """Alignment classes the real single-file reader went through in this case, from its log."""
+    if case["level"] != "file":
+        return set()
+    ends = geometry(case["files"][0]["len"])
+    endset = set(ends)
+    hit = set()
+    pos, bs, bn = 0, 0, True
+    for r in sorted((r for r in rows if r["k"] == "op"), key=lambda r: r["oi"]):
+        if r["op"] == "reads" and "ps" in r:
+            for j in range(r["n"]):
+                if pos > 0 and pos in endset:
+                    hit.add(ckey(read_class(ends, endset, pos, bn, bs, r["bss"][j])))
+                    bn = False
+                pos, bs = r["ps"][j], r["bss"][j]
+        else:
+            pos, bs, bn = r["pos"], r["bs"], r["bn"]
+    return hit
+
+
+def probe_line(ends, size, p):
+    """readProbeLine on the file geometry: (lineIdx, lineEnd, lineEndIdx, seekPos, winEnd)."""
+    seek = p - MAXENTRY if p > MAXENTRY else 0
+    win_end = min(seek + 2 * MAXENTRY, size)
+    k = bisect.bisect_left(ends, p)             # newlines below p
+    nl = ends[k - 1] if k >= 1 and ends[k - 1] >= seek else -1
+    line_idx = seek if nl == -1 else nl + 1
+    nr = ends[k] if k < len(ends) and ends[k] < win_end else -1
+    line_end = win_end if nr == -1 else nr
+    return line_idx, line_end, (win_end if nr == -1 else nr + 1), seek, win_end
+
+
+def probe_classes(lens, targets=None):
+    """{class key: target} for the probes seekTS makes on a well-formed file (line g has abstract
+    timestamp 2g).  Used to SELECT files and to ACCOUNT for coverage, never for a verdict."""
+    ends = geometry(lens)
+    size = ends[-1] + 1 if ends else 0
+    n = len(lens)
+    out = {}
+    if size == 0:
+        return out
+    starts = {(ends[i - 1] + 1 if i else 0): i + 1 for i in range(n)}
+    for t in (targets or range(1, 2 * n + 2)):
+        start, end, p, last, depth = 0, size, size // 2, -1, 0
+        while True:
+            li, le, lei, seek, win_end = probe_line(ends, size, p)
+            c = {"z": seek == 0, "clip": win_end < seek + 2 * MAXENTRY,
+                 "len": "eof" if li == size else len_class(le - li),
+                 "dl": "bof" if li == 0 else off_class(li - 1 - seek),
+                 "dr": "-" if li == size else off_class(win_end - 1 - le)}
+            out.setdefault(ckey(c), t)
+            if li == last or li == size:
+                break
+            ts = 2 * starts[li]
+            if ts == t:
+                break
+            if ts > t:
+                end = li
+            else:
+                start = lei
+            p = start + (end - start) // 2
+            last = li
+            depth += 1
+            if depth >= 100:
+                break
+    return out
+
+
+def solve_probe_class(c, rng):
+    """A file whose FIRST probe (Size div 2) falls into class c (window neither at the file start
+    nor clipped); None for the other classes, which select_probe_files looks for by enumeration."""
+    if c["z"] or c["clip"] or c["len"] == "eof" or c["dl"] == "bof":
+        return None
+    L = LEN_OF.get(c["len"], 8000)
+    want = 2 * MAXENTRY - 2 - L              # dl + dr for a window that contains the whole line
+    if c["dl"] != "2+":
+        dl = int(c["dl"])
+    elif c["dr"] != "2+":
+        dl = want - int(c["dr"])
+    else:
+        dl = want // 2
+    dr = want - dl
+    if off_class(dl) != c["dl"] or off_class(dr) != c["dr"] or not 0 <= MAXENTRY - 1 - dl <= L:
+        return None
+    a = rng.randint(2, 6) * 20000 + rng.randint(0, 999)      # X starts at offset a
+    P = a + MAXENTRY - 1 - dl
+    tail = 2 * P - a - L - 1
+    if tail < MINLEN + 1 or a < MINLEN + 1:
+        return None
+    return fill(a, rng) + [L] + fill(tail, rng)
+
+
+def select_probe_files(layouts, want, rng):
+    """Greedy cover of the probe classes in `want` by real-size files: first the solved ones, then an
+    enumeration of the scaled layouts at the isomorphic scale (1 scaled byte = 4096 bytes) with
+    boundary-length variants."""
+    chosen, covered = [], set()
+    for k in sorted(want):
+        if k in covered:
+            continue
+        lens = solve_probe_class(json.loads(k), rng)
+        if lens is not None:
+            pcs = probe_classes(lens)
+            if k in pcs:
+                chosen.append((lens, sorted(set(pcs.values()))))
+                covered |= set(pcs)
+    cands = []
+    for lay in layouts:
+        if not lay:
+            continue
+        base = [(l + 1) * 4096 - 1 for l in lay]
+        cands.append(base)
+        for v in (MAXENTRY - 2, MINLEN, 8000):
+            i = rng.randrange(len(base))
+            cands.append(base[:i] + [v] + base[i + 1:])
+    rng.shuffle(cands)
+    for lens in cands:
+        if not (want - covered):
+            break
+        pcs = probe_classes(lens)
+        new = (set(pcs) & want) - covered
+        if new:
+            chosen.append((lens, sorted({pcs[k] for k in new})))
+            covered |= set(pcs)
+    # exact offsets ("0", "1") next to a clipped window do not survive scaling: look for them among
+    # short files of boundary lengths
+    vals = [MINLEN, MINLEN + 1, MINLEN + 2, 100, 4000, 8000, 8191, 12287, MAXENTRY - 3, MAXENTRY - 2, MAXENTRY - 1]
+    for n in (2, 3, 4, 5):
+        for _ in range(3000):
+            if not (want - covered):
+                break
+            lens = [rng.choice(vals) if rng.random() < 0.7 else rng.randint(MINLEN, MAXENTRY - 1) for _ in range(n)]
+            pcs = probe_classes(lens)
+            new = (set(pcs) & want) - covered
+            if new:
+                chosen.append((lens, sorted({pcs[k] for k in new})))
+                covered |= set(pcs)
+    return chosen, want - covered
+
+
+def probe_class_unrealisable(c):
+    """Scaled classes that cannot exist with real log lines (a line holds at least its timestamp,
+    MINLEN bytes): a newline at offset 1 of the file, or a probe 2 bytes before the end of a file
+    whose last line is longer than 3 bytes."""
+    return (c["z"] and c["dl"] == "1") or (c["clip"] and not c["z"] and c["dl"] == "1" and c["dr"] == "0")
+
+
+def aligned_case(cid, desc):
+    """An op case for a file given by explicit content lengths (an alignment-class realisation)."""
+    rng = random.Random(desc["seed"])
+    lens = desc["explicit"]
+    n = len(lens)
+    grid_max = 2 * n + 1
+    ops = [[0], [2, -1, 1]]
+    tg = set(desc.get("targets") or [])
+    if n <= 8:
+        tg.update(range(1, grid_max + 1))
+    else:
+        # the lines around the solved place (it is at the end of the head filler) and a few others
+        ends = geometry(lens)
+        s = ends[-1] + 1
+        for off in (s - 1 - BUFSIZE, s - 1 - BUFSIZE + MAXENTRY, s // 2):
+            if 0 <= off < s:
+                i = bisect.bisect_left(ends, off)
+                for g in (i, i + 1, i + 2):
+                    if 1 <= g <= n:
+                        tg.update([2 * g, 2 * g + 1])
+        tg.update([1, grid_max, 2 * rng.randint(1, n), 2 * rng.randint(1, n) + 1])
+    for t in sorted(tg):
+        if 1 <= t <= grid_max:
+            ops.append([1, t])
+            ops.append([2, rng.choice([1, 2, 3]) if n > 8 else -1, 1])
+    return {"id": cid, "level": "file", "mode": "ops", "files": [{"ts": [2 * (g + 1) for g in range(n)], "len": lens}],
+            "ops": ops, "tsmap": tsmap(grid_max + 2, rng), "seed": 0}
+
+
 def ops_case(cid, desc):
     """Deterministic function of the descriptor: files, timestamps and the script."""
+    if "explicit" in desc:
+        return aligned_case(cid, desc)
     rng = random.Random(desc["seed"])
     lens = layout_lengths(desc["lens"], desc["mode"], rng)
     n = len(lens)
@@ -561,6 +868,23 @@ def run_binding(ctx, rng, tier, res, edge_vecs, layouts, mc_futs):
             if special[i][1]:
                 d["split"] = special[i][1]
         descs.append(d)
+    # ---- alignment classes of the scaled universe, each realised by a solved real-size file
+    rc_want = {ckey(c) for v in res["gen"]["vectors"] for c in v["rc"]}
+    pc_want = {ckey(c) for v in res["gen"]["vectors"] for c in v["pc"]}
+    arng = random.Random(ctx.seed * 104729 + 7)
+    rc_unsolved = []
+    for k in sorted(rc_want):
+        lens = solve_read_class(json.loads(k), arng)
+        if lens is None:
+            rc_unsolved.append(k)
+            continue
+        descs.append({"explicit": lens, "align": json.loads(k), "level": "file", "mode": "aligned", "lens": [],
+                      "seed": ctx.seed * 7919 + len(descs), "tier": tier})
+    pc_real = {k for k in pc_want if not probe_class_unrealisable(json.loads(k))}
+    pfiles, pc_missing = select_probe_files(layouts, pc_real, arng)
+    for lens, tgs in pfiles:
+        descs.append({"explicit": lens, "targets": tgs, "level": "file", "mode": "aligned-probe", "lens": [],
+                      "seed": ctx.seed * 7919 + len(descs), "tier": tier})
     ocases = [ops_case(100000 + i, d) for i, d in enumerate(descs)]
 
     allc = wcases + ocases
@@ -718,7 +1042,7 @@ def run_binding(ctx, rng, tier, res, edge_vecs, layouts, mc_futs):
                 # algorithm (bufferStart, depth, buffer reuse): not an observable of the property.
                 # The refinement proof no longer speaks about this code => inconclusive, not a violation.
                 alg_only.append("layout %s (%s) op %d %s: observed %s" % (
-                    desc_of[cid]["lens"], desc_of[cid]["mode"], oi, c["ops"][oi], json.dumps(rec, sort_keys=True)[:300]))
+                    desc_of[cid]["lens"], _mode(desc_of[cid]), oi, c["ops"][oi], json.dumps(rec, sort_keys=True)[:300]))
                 continue
             key = classify(c, rec)
             ops_bad += 1
@@ -727,7 +1051,7 @@ def run_binding(ctx, rng, tier, res, edge_vecs, layouts, mc_futs):
                 truncated += len(c["ops"]) - oi - 1
             ctx.disagreement(key, {"kind": "ops", "against": which, "desc": desc_of[cid], "oi": oi, "op": c["ops"][oi], "observed": rec},
                              "%s spec rejects op %d %s of layout %s (%s, %s, files with %s lines): observed %s" % (
-                                 which, oi, c["ops"][oi], desc_of[cid]["lens"], desc_of[cid]["mode"], desc_of[cid]["level"],
+                                 which, oi, c["ops"][oi], desc_of[cid]["lens"], _mode(desc_of[cid]), desc_of[cid]["level"],
                                  [len(f["ts"]) for f in c["files"]], json.dumps(rec, sort_keys=True)[:400]))
 
     # ---- half 1 results (started before the harness)
@@ -736,6 +1060,20 @@ def run_binding(ctx, rng, tier, res, edge_vecs, layouts, mc_futs):
     probs, taken = vacuity(res)
     if probs and not ctx.violations:
         raise vlib.Inconclusive("vacuous: " + "; ".join(probs[:6]))
+
+    # ---- alignment classes: found again in what the real code logged?
+    rc_hit = set()
+    for c in ocases:
+        rc_hit |= read_classes_hit(c, by.get(c["id"], []))
+    rc_missing = sorted(rc_want - rc_hit)
+    pc_hit = set()
+    for c in ocases:
+        if c["level"] == "file":
+            seeks = [op[1] for op in c["ops"] if op[0] == 1]
+            pc_hit |= set(probe_classes(c["files"][0]["len"], seeks)) if seeks else set()
+    if rc_missing and not ctx.violations:
+        raise vlib.Inconclusive("alignment classes of the scaled universe not realised by the backward reads of the real code "
+                                "(%d of %d; unsolved %d): %s" % (len(rc_missing), len(rc_want), len(rc_unsolved), rc_missing[:4]))
 
     # ---- coverage
     sizes = sorted(sum(l + 1 for f in c["files"] for l in f["len"]) for c in ocases)
@@ -754,7 +1092,7 @@ def run_binding(ctx, rng, tier, res, edge_vecs, layouts, mc_futs):
                                     "(direction B, %d cases): the refinement result does not transfer; re-transcribe the algorithm. "
                                     "First: %s" % (len(alg_only), alg_only[0]))
     oc = ocases[len(ocases) // 2]
-    samples.append({"ops_case": desc_of[oc["id"]], "bytes": [sum(l + 1 for l in f["len"]) for f in oc["files"]],
+    samples.append({"ops_case": {k: (v if k != "explicit" else "%d lines" % len(v)) for k, v in desc_of[oc["id"]].items()}, "bytes": [sum(l + 1 for l in f["len"]) for f in oc["files"]],
                     "lines": [len(f["ts"]) for f in oc["files"]],
                     "first_records": [r for r in by.get(oc["id"], []) if r["k"] == "op" and r["op"] != "reads"][:3]})
     cov = {
@@ -771,6 +1109,11 @@ def run_binding(ctx, rng, tier, res, edge_vecs, layouts, mc_futs):
         "op_calls": calls_ops, "op_seeks": seeks_ops,
         "file_bytes_min_median_max": [sizes[0], sizes[len(sizes) // 2], sizes[-1]],
         "files_above_buffer": sum(1 for s in sizes if s > BUFSIZE),
+        "read_alignment_classes": {"in_scaled_universe": len(rc_want), "hit_by_real_reads": len(rc_want & rc_hit),
+                                   "other_classes_seen_at_real_scale": len(rc_hit - rc_want)},
+        "probe_alignment_classes": {"in_scaled_universe": len(pc_want), "impossible_with_lines_of_64_bytes": len(pc_want - pc_real),
+                                    "hit_by_scripted_seeks": len(pc_real & pc_hit),
+                                    "not_realised": sorted(pc_real - pc_hit)},
         "op_cases_with_empty_file": sum(1 for c in ocases if has_empty_file(c)),
         "op_cases_alg_level_empty_file": sum(1 for c in ocases if c["level"] == "file" and has_empty_file(c) and c["id"] in alg_tr),
         "trace_records_abstract": nrec_abs, "trace_records_algorithm": nrec_alg,
@@ -792,6 +1135,10 @@ def run_binding(ctx, rng, tier, res, edge_vecs, layouts, mc_futs):
         "the orchestrator's lossless run-length encoding of read results",
         "files are well-formed: every line newline-terminated, non-empty, shorter than 16 KiB, timestamps strictly increasing",
         "a watchdog of 10 s per call (60 s when re-run alone) stands for 'never loops'"])
+
+
+def _mode(d):
+    return d["mode"] + (" " + json.dumps(d["align"], sort_keys=True) if "align" in d else "")
 
 
 def _replay_case(cid, vec_of, desc_of, seed):
